@@ -491,13 +491,11 @@ class BeamScn(Scenario):
         return [o for o in super().ops() if o not in ("rotate", "symmetry", "rayleighM", "rayleighK")]
 
     def replacement_mesh(self, key, live):
-        # a beam simulation works on beam elements: the constructor converts the mesh, an assigned mesh must be converted too
-        from EasyFEA.FEM.Elems._beam import _Construct_Euler_Bernoulli_mesh
-
+        # a plain line mesh, tagged with the name of the beam, as the constructor takes it (the public setter converts it to beam elements)
         mesh = _mesh(key)
         for g in mesh.Get_list_groupElem():
             g.Set_Tag(g.nodes, live["model"].beams[0].name)
-        return _Construct_Euler_Bernoulli_mesh(mesh)
+        return mesh
 
     def apply(self, simu, cfg, op, live):
         if op == "setcoord":
@@ -790,6 +788,8 @@ def cases(tier, seed):
             for seq in itertools.product(sub, repeat=4):
                 if seq[0] == "solve_save" and "replacemesh" in seq[1:3] and "setiter0" in seq[2:]:
                     out.append({"kind": "history", "scn": name, "ops": list(seq), "regime": "each"})
+    for what in ("replace_mesh", "useTimoshenko"):
+        out.append({"kind": "public", "what": what})
     # one model shared by two simulations
     for name in ("elastic", "thermal", "elastic_trisot"):
         mops = [o for o in SCENARIOS[name]().model_ops if not o.endswith("_field")]
@@ -922,6 +922,58 @@ def _run_shared(case):
         if v:
             break
     return {"violations": v[:4], "fingerprint": fp(case["scn"], case["pattern"], fps), "nontrivial": len(set(fps)) > 1, "transitions": ntr}
+
+
+def _run_public(case):
+    """operations of the beam simulation that the history scenarios can only carry out with a private helper: replacing the mesh through the
+    public setter (a plain line mesh, as a user has it), and switching the beam theory through its public parameter"""
+    from EasyFEA import Models, Simulations
+    from EasyFEA.Geoms import Domain, Line, Point
+
+    what = case["what"]
+    key = dict(scn="beam", regime="public", what=what)
+    v = []
+
+    def build(meshkey, timo):
+        with _quiet():
+            sec = Domain(Point(-0.05, -0.08), Point(0.05, 0.08)).Mesh_2D()
+        beam = Models.Beam.Isotropic(2, Line(Point(0, 0), Point(1.2, 0)), sec, 200.0, 0.3)
+        mesh = _mesh(meshkey)
+        for g in mesh.Get_list_groupElem():
+            g.Set_Tag(g.nodes, beam.name)
+        simu = Simulations.Beam(mesh, Models.Beam.BeamStructure([beam]), useTimoshenko=timo)
+        return simu, beam
+
+    def load_and_solve(simu):
+        x = np.asarray(simu.mesh.coord)[:, 0]
+        lo, hi = np.where(np.abs(x - x.min()) < 1e-9)[0], np.where(np.abs(x - x.max()) < 1e-9)[0]
+        simu.Bc_Init()
+        simu.add_dirichlet(lo, [0.0, 0.0, 0.0], ["x", "y", "rz"])
+        simu.add_neumann(hi, [0.4], ["y"])
+        with _quiet():
+            return np.array(simu.Solve(), dtype=float)
+
+    simu, beam = build("S1", False)
+    load_and_solve(simu)
+    try:
+        if what == "replace_mesh":
+            new = _mesh("S2")
+            for g in new.Get_list_groupElem():
+                g.Set_Tag(g.nodes, beam.name)
+            simu.mesh = new
+            fresh, _ = build("S2", False)
+        else:
+            simu.useTimoshenko = True
+            fresh, _ = build("S1", True)
+        u = load_and_solve(simu)
+    except Exception as err:
+        return {"violations": [viol("public_operation_raises", f"beam: {what} through the public API, then Solve: {type(err).__name__}: {str(err)[:120] or '(no message)'}", **key)],
+                "fingerprint": fp("public", what), "nontrivial": True, "transitions": 3}
+    uref = load_and_solve(fresh)
+    if u.shape != uref.shape or np.abs(u - uref).max() > 1e-8 * np.abs(uref).max():
+        v.append(viol("stale", f"beam: after {what} through the public API the solution differs from a freshly built simulation by "
+                               f"{(np.abs(u - uref).max() / np.abs(uref).max()) if u.shape == uref.shape else float('inf'):.3e}", **key))
+    return {"violations": v, "fingerprint": fp("public", what, uref), "nontrivial": True, "transitions": 4}
 
 
 def run_case(case):
